@@ -6,18 +6,30 @@ package main
 import "strings"
 
 type oaRenderer struct {
-	d   *Defs
-	out *renderOut
+	d       *Defs
+	out     *renderOut
+	mapping string
 }
 
 // oaMappingStyle selects how the discriminator mapping of a oneOfStructs is spelled:
-// "names" (mapping values are schema names), "refs" (values are #/components/schemas/X — the
-// common spelling, for which cog's Go output does not even parse), "none" (propertyName only).
+// "names" (mapping values are schema names; the reference validator gets the equivalent "refs"
+// text because kin-openapi only resolves references), "refs" (values are #/components/schemas/X —
+// the common spelling, for which cog's Go jenny fails the run: the generated code does not parse),
+// "none" (propertyName only; cog infers the mapping from the branches' constant fields).
 var oaMappingStyle = "names"
 
 func renderOpenAPI(d *Defs) renderOut {
+	out := renderOpenAPIStyle(d, oaMappingStyle)
+	if oaMappingStyle == "names" && out.Text != "" && strings.Contains(out.Text, `"discriminator"`) {
+		// kin-openapi only resolves reference-valued mappings; validate against the equivalent spelling
+		out.RefText = renderOpenAPIStyle(d, "refs").Text
+	}
+	return out
+}
+
+func renderOpenAPIStyle(d *Defs, mappingStyle string) renderOut {
 	out := renderOut{}
-	r := &oaRenderer{d: d, out: &out}
+	r := &oaRenderer{d: d, out: &out, mapping: mappingStyle}
 	schemas := jObj()
 	for _, it := range d.Items {
 		schemas.O = append(schemas.O, JKV{it.Name, r.ty(it.Ty)})
@@ -159,14 +171,14 @@ func (r *oaRenderer) ty(s *Src) JV {
 		mapping := jObj()
 		for _, b := range s.Branches {
 			alts.A = append(alts.A, jObj(kv("$ref", jStr(r.ref(b.Name)))))
-			if oaMappingStyle == "refs" {
+			if r.mapping == "refs" {
 				mapping.O = append(mapping.O, JKV{b.Tag, jStr(r.ref(b.Name))})
 			} else {
 				mapping.O = append(mapping.O, JKV{b.Tag, jStr(b.Name)})
 			}
 		}
 		disc := jObj(kv("propertyName", jStr(s.Disc)))
-		if oaMappingStyle != "none" {
+		if r.mapping != "none" {
 			disc.set("mapping", mapping)
 		}
 		return jObj(kv("oneOf", alts), kv("discriminator", disc))
